@@ -123,8 +123,8 @@ def run(ctx, c):
     grass = [m * req for m in c["grass_mult"]]
     try:
         animals, fu, gu, _ = herd.run_main(c["code"], feed, grass, c["strategy"], c.get("heads"))
-    except AssertionError:
-        if c.get("heads"):          # the herd model may refuse an overridden stock row (e.g. dairy transfers larger than the meat herd)
+    except (AssertionError, ValueError):
+        if c.get("heads"):          # the herd model may refuse an overridden stock row (dairy transfers larger than the meat herd; no animal left at all)
             ctx.abort("herd-model-refuses-overridden-heads")
             return
         raise
